@@ -97,4 +97,6 @@ Theorem pushed_last_sees_everything : forall l a, seen_from (rev (l ++ [E_teardo
 Proof. intros l a. rewrite rev_app_distr. reflexivity. Qed.
 
 Theorem teardown_callbacks_pushed_last : forall hp, exists l, exit_entries hp = l ++ [E_teardown_callbacks].
-Proof. intros [|]; eexists; reflexivity. Qed.
+Proof.
+  intros [|]; [exists (removelast (exit_entries true)) | exists (removelast (exit_entries false))]; reflexivity.
+Qed.
